@@ -60,11 +60,12 @@ Fixpoint placed (ss ss' : list stmt) (a0 : N) : Prop :=
   | _, _ => False
   end.
 
-Lemma assign_placed : forall ss a0 ss', assign_addresses ss a0 = Ok ss' -> placed ss ss' a0.
+Lemma assign_placed : forall ss a0 em ss', assign_addresses ss a0 em = Ok ss' -> placed ss ss' a0.
 Proof.
-  induction ss as [|s r IH]; intros a0 ss' H; cbn [assign_addresses] in H.
+  induction ss as [|s r IH]; intros a0 em ss' H; cbn [assign_addresses] in H.
   - inversion H; subst. exact I.
-  - apply bind_ok in H as [[av a] [Hpa H]]. apply bind_ok in H as [rest [Hr H]]. inversion H; subst. clear H.
+  - apply bind_ok in H as [[av a] [Hpa H]]. destruct (em && negb (a =? a0)); [discriminate|].
+    apply bind_ok in H as [rest [Hr H]]. inversion H; subst. clear H.
     cbn [placed]. unfold same_but_addr, addr_of_stmt, size_of_stmt, has_own_address, set_pkg. cbn.
     assert (Ha : a = v_int av /\ (v_is_none (cp_addr (s_pkg s)) = true -> v_int av = a0) /\
                  (v_is_none (cp_addr (s_pkg s)) = false -> av = cp_addr (s_pkg s))).
@@ -76,7 +77,7 @@ Proof.
     split; [repeat split; reflexivity|].
     split; [intros Hn; apply negb_false_iff in Hn; auto|].
     split; [intros Hn; apply negb_true_iff in Hn; auto|].
-    apply IH. exact Hr.
+    eapply IH. exact Hr.
 Qed.
 
 Lemma placed_length : forall ss ss' a0, placed ss ss' a0 -> length ss' = length ss.
